@@ -545,6 +545,39 @@ theorem mem_keys_insertRvf (ℓ : List σ → σ) (t : Tab (List σ) ℝ) {k : L
   obtain ⟨o, ho, rfl⟩ := List.mem_map.mp hk
   exact ⟨o, ho, rfl⟩
 
+/-- Appending two symbols at once is appending them one after the other, the second one computed
+from the first `n` symbols. -/
+theorem insertRvf_two_eq (a b : List σ → σ) (n : Nat) (t : Tab (List σ) ℝ)
+    (hn : ∀ k ∈ keys t, k.length = n) :
+    insertRvf (fun o => [a o, b o]) none t
+      = insertRvf (fun o' => [b (o'.take n)]) none (insertRvf (fun o => [a o]) none t) := by
+  show t.map (fun r => (r.1 ++ [a r.1, b r.1], r.2))
+    = (t.map (fun r => (r.1 ++ [a r.1], r.2))).map
+        (fun r => (r.1 ++ [b (r.1.take n)], r.2))
+  rw [List.map_map]
+  apply List.map_congr_left
+  intro r hr
+  have hlen : r.1.length = n := hn r.1 (mem_keys_of_mem hr)
+  simp only [Function.comp_apply, Prod.mk.injEq, and_true]
+  rw [List.take_left' hlen, List.append_assoc]
+  rfl
+
+/-- A label of the old outcome that is a function of the values on `Y`, read off the first `n`
+symbols of the extended outcome, is still a function of the values on `Y`. -/
+theorem take_function (a b : List σ → σ) (n : Nat) (t : Tab (List σ) ℝ)
+    (hn : ∀ k ∈ keys t, k.length = n) (Y : List Nat) (hY : ∀ i ∈ Y, i < n)
+    (hb : ∀ k ∈ keys t, ∀ k' ∈ keys t, project Y k = project Y k' → b k = b k') :
+    ∀ k ∈ keys (insertRvf (fun o => [a o]) none t),
+      ∀ k' ∈ keys (insertRvf (fun o => [a o]) none t),
+        project Y k = project Y k' → b (k.take n) = b (k'.take n) := by
+  intro k hk k' hk' e
+  obtain ⟨o, ho, rfl⟩ := mem_keys_insertRvf a t hk
+  obtain ⟨o', ho', rfl⟩ := mem_keys_insertRvf a t hk'
+  rw [project_append_of_lt (by rw [hn o ho]; exact hY),
+    project_append_of_lt (by rw [hn o' ho']; exact hY)] at e
+  rw [List.take_left' (hn o ho), List.take_left' (hn o' ho')]
+  exact hb o ho o' ho' e
+
 variable (ℓ : List σ → σ) (n : Nat) (t : Tab (List σ) ℝ) (hn : ∀ k ∈ keys t, k.length = n)
 include hn
 
